@@ -13,6 +13,7 @@ import os
 _PATH = os.environ.get("GLOTARAN_VERIF_TRACE")
 ENABLED = bool(_PATH)
 _seq = 0
+_seen = None
 
 
 def emit(event: str, **fields) -> None:
@@ -25,6 +26,42 @@ def emit(event: str, **fields) -> None:
     record.update(fields)
     with open(_PATH, "a") as trace_file:  # type:ignore[arg-type]
         trace_file.write(json.dumps(record, default=str) + "\n")
+
+
+def first(obj) -> bool:
+    """Whether this is the first time ``obj`` is passed (weak references, no attribute is set on it)."""
+    global _seen
+    import weakref
+
+    if _seen is None:
+        _seen = weakref.WeakSet()
+    if obj in _seen:
+        return False
+    _seen.add(obj)
+    return True
+
+
+def _intervals(item) -> list | None:
+    interval = getattr(item, "interval", None)
+    if interval is None:
+        return None
+    if isinstance(interval, tuple) or not isinstance(interval[0], (list, tuple)):
+        interval = [interval]
+    return [[float(bound) for bound in single] for single in interval]
+
+
+def reduction_items(model) -> dict:
+    """The clp constraints and relations of a model as plain data (type, labels, intervals)."""
+    return {
+        "constraints": [
+            {"type": str(c.type), "target": str(c.target), "intervals": _intervals(c)}
+            for c in model.clp_constraints
+        ],
+        "relations": [
+            {"source": str(r.source), "target": str(r.target), "intervals": _intervals(r)}
+            for r in model.clp_relations
+        ],
+    }
 
 
 def registry_projection(plugin_registry) -> dict:
